@@ -47,6 +47,9 @@ def main():
     for p in props:
         pid = p['id']
         c = CHECKS.get(pid)
+        if c is None and os.path.exists(os.path.join(VERIF, 'mc', 'props', pid + '.py')):
+            import importlib
+            c = getattr(importlib.import_module('mc.props.' + pid), 'MANIFEST', None)
         if c is None:
             na.append({'property_id': pid, 'reason': PENDING.get(pid, 'check not built yet (planned in DESIGN.md section 5); not claimed')})
             continue
@@ -72,7 +75,7 @@ def main():
             'add_only': True,
         },
         'engines': [
-            {'name': 'mc', 'path': 'mc/', 'serves_properties': sorted(CHECKS),
+            {'name': 'mc', 'path': 'mc/', 'serves_properties': [c['property_id'] for c in checks],
              'kind_free_text': 'hand-written explicit-state / stateless model checker for Python: virtual asyncio world '
              '(m real parties in one process), deviation-bounded schedule explorer, crash/fault enumerator, '
              'bounded-exhaustive enumerators with reference models'},
